@@ -15,12 +15,12 @@ REPO = os.environ.get('VERIF_REPO', '/repo')
 SWEEPS = {
     'C01': [['stream', '2'], ['longrun', 'stream2', '@SEED', '3000000']],
     'C02': [['stream', '1'], ['longrun', 'stream1', '@SEED', '3000000']],
-    'C04': [['events', '1'], ['longrun', '1', '@SEED', '3000000']],
+    'C04': [['events', '1'], ['longrun', '1', '@SEED', '3000000'], ['events-real', '1']],
     'C05': [['words']],
     'C06': [['bits'], ['longrun', 'bits', '@SEED', '5000000']],
     'C07': [['resync', '2'], ['resync', '1']],
     'C08': [['words'], ['bits'], ['events', '3'], ['events', '7'], ['total'], ['soak'], ['longrun', 'bits', '@SEED', '5000000'], ['longrun', '3', '@SEED', '3000000'], ['keyboard', '2'], ['keyboard', '1'], ['stream', '2'], ['stream', '1']],
-    'C14': [['events', '2'], ['events', '6'], ['longrun', '2', '@SEED', '3000000']],
+    'C14': [['events', '2'], ['events', '6'], ['events-real', '2'], ['longrun', '2', '@SEED', '3000000']],
     # C18 compares Keyboard with the real stages (not the stages with their specifications: that is C05/C06/C01/C02/C04/C14)
     'C18': [['keyboard', '2'], ['keyboard', '1'], ['fuzz', '2', '@SEED', '5000000'], ['fuzz', '1', '@SEED', '5000000']],
     'C17': [['switching']],
